@@ -115,7 +115,9 @@ def load_chain(kt, entry):
         else:
             cfg.load_cert_chain(os.path.join(MENU_DIR, "%s_%s.pem" % (kt, entry)),
                                 os.path.join(MENU_DIR, kt + ".key"))
-        _CHAINS[key] = (cfg.certificate, cfg.certificate_chain, cfg.private_key)
+        from vlib import seams
+
+        _CHAINS[key] = (cfg.certificate, cfg.certificate_chain, seams.fixed_length_ec_key(cfg.private_key))
     return _CHAINS[key]
 
 
